@@ -215,6 +215,12 @@ func (f *File) enterWriteMode() error {
 		"name": f.name,
 	})
 
+	// Continue writing where we stopped reading
+	pos := int64(0)
+	if f.readOpReader != nil && !f.flags.Truncate {
+		pos = int64(f.readOpReader.BytesRead)
+	}
+
 	if f.readOpReader != nil || f.readOpWriter != nil {
 		if err := f.closeWithoutLocking(); err != nil {
 			return err
@@ -277,7 +283,7 @@ func (f *File) enterWriteMode() error {
 		}
 
 		if !f.flags.Append {
-			if _, err := f.writeBuf.Seek(0, io.SeekStart); err != nil {
+			if _, err := f.writeBuf.Seek(pos, io.SeekStart); err != nil {
 				return err
 			}
 		}
@@ -313,9 +319,13 @@ func (f *File) seekWithoutLocking(offset int64, whence int) (int64, error) {
 		}
 		dst = int64(curr) + offset
 	case io.SeekEnd:
-		dst = f.info.Size() - offset
+		dst = f.info.Size() + offset
 	default:
 		return -1, config.ErrNotImplemented
+	}
+
+	if dst < 0 {
+		return -1, os.ErrInvalid
 	}
 
 	if f.readOpReader == nil || f.readOpWriter == nil || dst < int64(f.readOpReader.BytesRead) { // We have to re-open as we can't seek backwards
@@ -354,26 +364,17 @@ func (f *File) seekWithoutLocking(offset int64, whence int) (int64, error) {
 		f.readOpWriter = writer
 	}
 
-	written, err := io.CopyN(io.Discard, f.readOpReader, dst-int64(f.readOpReader.BytesRead))
+	_, err := io.CopyN(io.Discard, f.readOpReader, dst-int64(f.readOpReader.BytesRead))
 	if err == io.EOF {
-		// Noop
-		switch whence {
-		case io.SeekStart:
-			return offset, nil
-		case io.SeekCurrent:
-			return int64(f.readOpReader.BytesRead) + offset, nil
-		case io.SeekEnd:
-			return int64(f.info.Size()) - offset, nil
-		default:
-			return -1, config.ErrNotImplemented
-		}
+		// Seeking beyond the end of the file is not an error
+		return dst, nil
 	}
 
 	if err != nil {
 		return -1, err
 	}
 
-	return written, nil
+	return dst, nil
 }
 
 // Inventory
@@ -706,14 +707,22 @@ func (f *File) Truncate(size int64) error {
 	}
 
 	if size > oldSize {
-		if err := f.writeBuf.Truncate(0); err != nil {
+		// Keep the existing content and the cursor, append zeros
+		pos, err := f.writeBuf.Seek(0, io.SeekCurrent)
+		if err != nil {
 			return err
 		}
 
-		for i := int64(0); i < size; i++ {
-			if _, err := f.writeBuf.Write(make([]byte, 1)); err != nil {
-				return err
-			}
+		if _, err := f.writeBuf.Seek(0, io.SeekEnd); err != nil {
+			return err
+		}
+
+		if _, err := f.writeBuf.Write(make([]byte, size-oldSize)); err != nil {
+			return err
+		}
+
+		if _, err := f.writeBuf.Seek(pos, io.SeekStart); err != nil {
+			return err
 		}
 
 		return nil
